@@ -162,4 +162,17 @@ theorem text_roundtrip (sk : Bool) (s tail : List Char) (hml : isMultiline s = f
       simp only [List.cons_append, List.append_assoc, List.nil_append] at hgo ⊢
       simp [qStart, hgo]
 
+/-- the double-quoted style needs no hypothesis on the string: line breaks, controls, BOM ... are all escaped -/
+theorem text_roundtrip_double (sk : Bool) (s tail : List Char) (hst : styleOf sk s = Style.double)
+    (htp : tail.all yamlPrintable = true) : loadLine (textOf sk s ++ tail) = some (Tag.str, s, tail) := by
+  simp only [textOf, hst]
+  generalize allowUnicodeCfg = au
+  have hq : yamlPrintable '"' = true := by decide
+  have hprint : (('"' :: (writeDoubleBody au s ++ ['"'])) ++ tail).all yamlPrintable = true := by
+    simp [List.all_append, hq, writeDoubleBody_printable au s, htp]
+  have hgo := qGo_double au s [] [] tail
+  simp only [loadLine, hprint, Bool.not_true, Bool.false_eq_true, if_false]
+  simp only [List.cons_append, List.append_assoc, List.nil_append] at hgo ⊢
+  simp [qStart, hgo]
+
 end Jap.Scalar
